@@ -247,11 +247,15 @@ class BufferCursor(Cursor):
     def lineat(self, pos: int | None = None) -> int:
         if pos is None:
             pos = self.pos
+        if not self.buffer.linecache:
+            return 0
         return self.buffer.linecache[pos].lineno
 
     def poscol(self, pos: int | None = None) -> int:
         if pos is None:
             pos = self.pos
+        if not self.buffer.linecache:
+            return 0
         start = self.buffer.linecache[pos].startpos
         return pos - start
 
@@ -503,6 +507,8 @@ class Buffer(Text):
     def poscol(self, pos: int | None = None) -> int:
         if pos is None:
             pos = self.pos
+        if not self.linecache:
+            return 0
         start = self.linecache[pos].startpos
         return pos - start
 
